@@ -233,7 +233,8 @@ Proof. intros H. induction n as [|n IH]; intros c; cbn [chain_n]; [reflexivity|]
 Lemma p_spec_rendered_agree : g_chain_ends_at_any = true ->
   forall pol dirs pkg c, p_spec_rendered pol dirs pkg c = p_spec_rendered_code pol dirs pkg c.
 Proof.
-  intros H pol dirs pkg c. unfold p_spec_rendered, p_spec_rendered_code. f_equal. apply chain_n_ext.
+  intros H pol dirs pkg c. unfold p_spec_rendered, p_spec_rendered_code.
+  rewrite (chain_n_ext prop_bases p_bases); [reflexivity|].
   intros k. unfold prop_bases, p_bases. rewrite H. reflexivity.
 Qed.
 
